@@ -8,9 +8,10 @@ the Rust code chunks / swaps `records` and `targets` in tandem.
 -/
 namespace LinfaSpec.Fold
 
-/-- contract of ndarray's `axis_chunks_iter(Axis(0), fs)` (and of linfa's
-`ChunksIter`): chunk `i` is rows `[i*fs, min((i+1)*fs, n))`, there are
-`ceil(n/fs)` of them.  `fs = 0` panics in ndarray; callers guard it. -/
+/-- contract of ndarray's `axis_chunks_iter(Axis(0), fs)`: chunk `i` is rows
+`[i*fs, min((i+1)*fs, n))`, there are `ceil(n/fs)` of them (the last one may be short).
+`fs = 0` panics in ndarray; callers guard it.  (linfa's own `ChunksIter` is `sampleChunks`
+below: it yields `floor(n/fs)` full blocks only.) -/
 def chunks {α} (fs : Nat) (l : List α) : List (List α) :=
   (List.range ((l.length + fs - 1) / fs)).map fun i => (l.drop (i * fs)).take fs
 
@@ -42,6 +43,28 @@ def foldPairs {α} (k : Nat) (ds : List α) : Option (List (List α × List α))
     if cs.length < 2 ∨ cs.length < k then none
     else some (foldGo k k 0 cs)
 
+/-- `fold` on one of the two containers with the chunk size HANDED IN: the Rust code computes
+one `fold_size` (`targets.len_of(Axis(0)) / k`) and chunks records and targets with it. -/
+def foldWith {α} (fs k : Nat) (ds : List α) : Option (List (List α × List α)) :=
+  if fs = 0 then none
+  else
+    let cs := chunks fs ds
+    if cs.length < 2 ∨ cs.length < k then none
+    else some (foldGo k k 0 cs)
+
+/-- `DatasetBase::fold(k)` on the dataset: ONE fold size, taken from the row count of the
+targets, applied to records and targets; the two chunk vectors go through the same loop (same
+swaps) and pair `i` of the result is ((training records, training targets), (validation
+records, validation targets)).  `none` = the call panics. -/
+def foldDataset {α β} (k : Nat) (recs : List α) (tgts : List β) :
+    Option (List ((List α × List β) × (List α × List β))) :=
+  if k = 0 then none
+  else
+    let fs := tgts.length / k
+    match foldWith fs k recs, foldWith fs k tgts with
+    | some fr, some ft => some ((fr.zip ft).map fun x => ((x.1.1, x.2.1), (x.1.2, x.2.2)))
+    | _, _ => none
+
 /-- `assist_swap_array2!(slice, i, fold_size, stride)` -/
 def swapBlock {α} (buf : List α) (i fs stride : Nat) : List α :=
   if i = 0 then buf
@@ -72,6 +95,12 @@ def iterGo {α β} (fs p t : Nat) : Nat → Nat → List α → List β →
     let (rest, rf, gf) := iterGo fs p t fuel (i + 1) r2 g2
     (train :: rest, rf, gf)
 
+/-- linfa's `ChunksIter` (`sample_chunks(fs)`) on a flat row-major buffer of `n` samples, `w`
+cells per sample: `n / fs` blocks of `fs` WHOLE samples each (`slice_axis` on the logical rows;
+a trailing partial block is not yielded).  Also right for `w = 0` (blocks of zero-width rows). -/
+def sampleChunks {α} (n fs w : Nat) (buf : List α) : List (List α) :=
+  (List.range (n / fs)).map fun i => (buf.drop (i * (fs * w))).take (fs * w)
+
 /-- `iter_fold(k, closure)`; `none` = one of the two `assert!`s fires. -/
 def iterFold {α β} (n k p t : Nat) (recs : List α) (tgts : List β) :
     Option (IterFoldOut α β) :=
@@ -79,10 +108,11 @@ def iterFold {α β} (n k p t : Nat) (recs : List α) (tgts : List β) :
   else
     let fs := n / k
     let (trains, rf, gf) := iterGo fs p t k 0 recs tgts
-    -- `objs.into_iter().zip(self.sample_chunks(fold_size))`
-    let vr := (chunks (fs * p) rf).take k
-    let vt := (chunks (fs * t) gf).take k
-    some { trains := trains, valids := vr.zip vt, finalR := rf, finalT := gf }
+    -- `objs.into_iter().zip(self.sample_chunks(fold_size))`: the `k` results cut the
+    -- `n / fs ≥ k` validation blocks down to the first `k`
+    let vr := sampleChunks n fs p rf
+    let vt := sampleChunks n fs t gf
+    some { trains := trains, valids := (vr.zip vt).take k, finalR := rf, finalT := gf }
 
 /-! ### cross_validate -/
 
@@ -119,8 +149,11 @@ def crossValidate {ε σ} [Add σ] [Div σ] [OfNat σ 0] [NatCast σ]
 /-- `iter_fold` as it is called on an arbitrary `DataMut` dataset: the two `assert!`s, then
 `records.as_slice_mut().unwrap()` / `targets.as_slice_mut().unwrap()` — `None` (a panic, as
 documented under "Panics") unless both arrays are contiguous in standard (row-major) order —
-then the in-place loop on the flat buffers.  `stdR` / `stdT` are ndarray's
-`is_standard_layout()` of the two arrays. -/
+then the in-place loop on the flat buffers.  `stdR` / `stdT` say whether the
+two `as_slice_mut()` calls answer `Some`: the records array is in standard layout; the targets
+array is in standard layout AFTER `as_targets_mut()` (`view_mut()`) made its storage unique (a
+shared `ArcArray` that shows at most half of its allocation is copied compactly at that point,
+so it passes).  An array without cells passes. -/
 def iterFoldLayout {α β} (stdR stdT : Bool) (n k p t : Nat) (recs : List α) (tgts : List β) :
     Option (IterFoldOut α β) :=
   if k = 0 ∨ n < k then none
